@@ -557,6 +557,24 @@ def _cases(chunk):
     rng = gen.rng_for(PROP, chunk)
     k = chunk.get("idx", 0)
     for n in range(chunk["n"]):
+        if n == 2:
+            # a fine explicit grid (more than 10 000 cells) with straight segments that span all of it, descending and
+            # ascending: thresholds on the number of cells a segment spans lie beyond the small grids of the other cases
+            W_, H_ = rng.choice([(240.0, 200.0), (300.0, 180.0)])
+            a = [rng.uniform(0.5, 4.5), H_ - rng.uniform(0.5, 4.5)]
+            b = [W_ - rng.uniform(0.5, 4.5), rng.uniform(0.5, 4.5)]
+            trk = [[a, b], [[0.0, 0.0], [W_, H_]],
+                   [[rng.uniform(5, 20), rng.uniform(5, 30)], [W_ / 3, H_ - 7.25], [W_ - 11.5, rng.uniform(8, 40)]]]
+            qs = []
+            for t_ in (0.07, 0.21, 0.38, 0.5, 0.66, 0.83, 0.94):
+                p_ = [a[0] + t_ * (b[0] - a[0]), a[1] + t_ * (b[1] - a[1])]
+                qs.append({"q": "pt", "p": p_})
+                qs.append({"q": "nbh", "p": [p_[0] + 0.4, p_[1] + 0.3], "d": rng.choice([1.0, 2.5, 5.0])})
+            qs.append({"q": "seg", "a": [a[0] + 1.0, a[1] - 1.5], "b": [b[0] - 2.0, b[1] + 0.75]})
+            qs.append({"q": "seg", "a": [b[0] - 2.0, b[1] + 0.75], "b": [a[0] + 1.0, a[1] - 1.5]})
+            yield {"kind": ["tc", "net"][k % 2], "profile": "fine_grid", "tracks": trk, "res": [2.0, 2.0],
+                   "margin": [0, 0.05][k % 2], "queries": qs, "limit_x": 5}
+            continue
         force = {}
         if n % 4 == 0:
             force["margin"] = MARGINS[(k + n // 4) % 4]
@@ -710,8 +728,16 @@ def _build(case):
             # identifiers: strings by default; for some networks the edges are numbered 1..N with Python ints, or with
             # the strings "1".."N" (as read from a file whose identifiers are numbers)
             e = Edge((k + 1) if id_style == 1 else str(k + 1) if id_style == 2 else "e%d" % k, t)
-            net.addEdge(e, Node("s%d" % k, t.getObs(0).position.copy()),
-                        Node("t%d" % k, t.getObs(t.size() - 1).position.copy()))
+            if stage is not None and k >= stage and t.size() >= 3 and not getattr(t, "_vt_ignored", False) \
+                    and (k + len(trs)) % 2 == 0:
+                # a closed edge (turning circle, roundabout stored as one edge): the geometry returns to its first
+                # vertex and both ends are ONE node -- here among the edges registered after the index was built
+                t.addObs(t.getObs(0).copy())
+                M.CTX.count("closed_edge_on_one_node_added_late")
+            p0, p1 = t.getObs(0).position, t.getObs(t.size() - 1).position
+            n0 = Node("s%d" % k, p0.copy())
+            n1 = n0 if (p0.getX(), p0.getY()) == (p1.getX(), p1.getY()) and t.size() >= 3 else Node("t%d" % k, p1.copy())
+            net.addEdge(e, n0, n1)
         if not (stage is not None and how == "incremental"):
             net.createSpatialIndex(res, case["margin"], False)
         return net.spatial_index, trs
@@ -1034,8 +1060,8 @@ def classify(case, witness):
 
 # floors for the call-history workloads added in session 3 (a run in which they were silently skipped is inconclusive)
 _floors_base = floors
-_FLOORS_EXTRA = {'classes': {'profile_dense': 20, 'features_left_of_or_below_the_origin': 300},
-                 'counters': {'edge_identifiers:int_1_to_N': 100, 'index_queried_before_the_remaining_edges_were_added': 25, 'point_query_through_neighborhood_with_default_unit': 5000,
+_FLOORS_EXTRA = {'classes': {'profile_dense': 20, 'features_left_of_or_below_the_origin': 300, 'profile_fine_grid': 4},
+                 'counters': {'edge_identifiers:int_1_to_N': 100, 'index_queried_before_the_remaining_edges_were_added': 25, 'closed_edge_on_one_node_added_late': 40, 'point_query_through_neighborhood_with_default_unit': 5000,
                               'returned_list_modified_by_the_caller': 20000, 'edge_identifiers:digit_strings': 50,
                               'network_staged_build:index': 50, 'network_staged_build:bbox': 20,
                               'network_staged_build:incremental': 30}}
